@@ -128,6 +128,16 @@ CLAIMED = {
         design_ref="DESIGN.md §5 C18",
         note="Trusted: concretisation of value classes per kind; paths relative to the model's root map.",
     ),
+    "C13": dict(
+        technique="TLC-enumerated outcome table (SeedUpdate.tla) + trace validation of update events from several interpreter processes against one memo (TraceSeedUpdate.tla)",
+        category="model_checking",
+        text="SeedUpdate.tla fixes which update requests are refused / taken from the seed list / computed; children started with different "
+             "PYTHONHASHSEED values and different dict listing orders execute the table rows and seeded random configurations (non-ASCII, empty "
+             "and long names, huge and negative seeds); all their events form one trace in which TLC requires the computed seed to be a function "
+             "of (name, original seed, r), the first draws a function of the seed, and refused updates to leave the stream unchanged.",
+        design_ref="DESIGN.md §5 C13",
+        note="TLC does not start interpreters: the harness does; TLC decides equality across processes (strings).",
+    ),
 }
 
 NOT_APPLICABLE = {
